@@ -306,6 +306,9 @@ func c12IndexSafe(fi *FnInfo, loops []loopRef, in ssa.Instruction, x, idx ssa.Va
 				}
 			}
 		}
+		if kv, ok := parseConstInt(desc(k)); ok && earlierAccessProves(x, kv+1, in) {
+			return true, ""
+		}
 		return false, "constant index " + n + " without a length guard; guards: " + summarizeLabels(g, 4)
 	}
 	// index returned by an index-finding producer, guarded non-negative
@@ -326,6 +329,20 @@ func c12IndexSafe(fi *FnInfo, loops []loopRef, in ssa.Instruction, x, idx ssa.Va
 func c12SliceSafe(fi *FnInfo, sl *ssa.Slice) (bool, string) {
 	xd := desc(sl.X)
 	g := fi.GuardsOf(sl)
+	// constant bounds already proved by an earlier access of the same value (`x[0]` … `x[1:]`)
+	if sl.Max == nil {
+		lo, loOK := int64(0), sl.Low == nil
+		if sl.Low != nil {
+			lo, loOK = parseConstInt(desc(sl.Low))
+		}
+		hi, hiOK := lo, sl.High == nil
+		if sl.High != nil {
+			hi, hiOK = parseConstInt(desc(sl.High))
+		}
+		if loOK && hiOK && lo >= 0 && hi >= lo && earlierAccessProves(sl.X, hi, sl) {
+			return true, ""
+		}
+	}
 	// x[:i] with i = strings.LastIndex/Index(x, ...) guarded i >= 0
 	if sl.Low == nil && sl.High != nil {
 		hd := desc(sl.High)
